@@ -126,10 +126,19 @@ func runIntro(file []byte, foreign bool) {
 		emit(event{"ev": "HarnessError", "detail": "intro: independent footer decode failed: " + err.Error()})
 		return
 	}
-	raw, werr := pq.WalkRaw(file, 4, ind.FooterOff)
-	if werr != nil {
-		emit(event{"ev": "HarnessError", "detail": "intro: independent page walk failed: " + werr.Error()})
-		return
+	// the independent walk: chunk by chunk in the order of the footer, each from its data_page_offset over its
+	// total_compressed_size bytes (for files of this library that is one sequential walk from byte 4; a foreign file may
+	// store the chunks in another order or put other structures between the last chunk and the footer)
+	var raw []pq.RawPage
+	for _, rg := range ind.RowGroups {
+		for _, ch := range rg.Columns {
+			part, werr := pq.WalkRaw(file, int(ch.DataPageOffset), int(ch.DataPageOffset+ch.TotalComp))
+			if werr != nil {
+				emit(event{"ev": "HarnessError", "detail": "intro: independent page walk failed: " + werr.Error()})
+				return
+			}
+			raw = append(raw, part...)
+		}
 	}
 	ipages := []event{}
 	ioffs := []int{}
@@ -168,7 +177,7 @@ func runIntro(file []byte, foreign bool) {
 						hs, err := parquet.PageHeadersAtOffset(bytes.NewReader(file), int64(r.Off), remaining)
 						// expected: the pages from i up to the end of the chunk
 						want := []event{}
-						for j := i; j < len(raw) && int64(raw[j].Off) < ch.DataPageOffset+ch.TotalComp; j++ {
+						for j := i; j < len(raw) && int64(raw[j].Off) >= ch.DataPageOffset && int64(raw[j].Off) < ch.DataPageOffset+ch.TotalComp; j++ {
 							want = append(want, hdrObsInd(raw[j].Hdr))
 						}
 						atpage = append(atpage, event{"off": r.Off, "n": remaining, "err": errStr(err), "hdrs": hdrsLib(hs), "want": want})
